@@ -161,6 +161,14 @@ func (ir *IntrospectionResolver) resolveType(schema *ast.Schema, typ *ast.Type, 
 					types = append(types, ir.resolveType(schema, &ast.Type{NamedType: t}, f.SelectionSet))
 				}
 				result[f.Alias] = types
+			} else if namedType.Kind == ast.Interface {
+				// possible types of interface are types which implement it
+				types := []map[string]interface{}{}
+				for _, t := range schema.GetPossibleTypes(namedType) {
+					types = append(types, ir.resolveType(schema, &ast.Type{NamedType: t.Name}, f.SelectionSet))
+				}
+				sortPayload(types)
+				result[f.Alias] = types
 			} else {
 				result[f.Alias] = nil
 			}
